@@ -295,7 +295,13 @@ func runCase(seed uint64, idx int) (coq string, desc map[string]interface{}, cls
 		}
 		switch o.kind {
 		case opPush:
-			m := &auparse.AuditMessage{RecordType: auparse.AuditMessageType(o.typ), Sequence: o.seq, RawData: "id=" + strconv.Itoa(o.mid)}
+			// messages are told apart by pointer, so their text need not differ: runs of three hand-built messages carry no raw
+			// text at all (two PATH records of one event then look alike in everything but identity)
+			rawText := "id=" + strconv.Itoa(o.mid)
+			if (o.mid/3)%2 == 0 {
+				rawText = ""
+			}
+			m := &auparse.AuditMessage{RecordType: auparse.AuditMessageType(o.typ), Sequence: o.seq, RawData: rawText}
 			s.ids[m] = o.mid
 			text = append(text, fmt.Sprintf("push seq=%d type=%d", o.seq, o.typ))
 			rc.lo = int64(time.Since(start))
